@@ -7,7 +7,7 @@ from __future__ import annotations
 
 from typing import TYPE_CHECKING, Generator, cast
 
-from exabgp.bgp.message import Message, Update
+from exabgp.bgp.message import EOR, Message, Update
 from exabgp.environment import getenv
 from exabgp.logger import lazyformat, lazymsg, log
 from exabgp.reactor.peer.handlers.base import MessageHandler
@@ -73,6 +73,9 @@ class UpdateHandler(MessageHandler):
 
         Stores all NLRIs in the incoming RIB cache.
         """
+        if isinstance(message, EOR):
+            # End-of-RIB shares the UPDATE type but carries no route (and has no parsed collection)
+            return
         update = cast(Update, message)
         parsed = update.data  # Already parsed by unpack_message
         self._number += 1
@@ -110,6 +113,9 @@ class UpdateHandler(MessageHandler):
 
         Same logic as sync - no async I/O needed for inbound processing.
         """
+        if isinstance(message, EOR):
+            # End-of-RIB shares the UPDATE type but carries no route (and has no parsed collection)
+            return
         update = cast(Update, message)
         parsed = update.data  # Already parsed by unpack_message
         self._number += 1
